@@ -209,6 +209,81 @@ def _run(job):
     return results, fresh, before == after, sorted(Tracer.calls)
 
 
+def _verdicts(job):
+    """damaged archive: run the call sequence, return the result of every call (verdicts as strings)"""
+    data, mode, seq, tmp = job
+    import py7zr
+    path = os.path.join(tmp, "dmg_%d.7z" % os.getpid())
+    with open(path, "wb") as f:
+        f.write(data)
+    src = path if mode == "path" else open(path, "rb")
+    out = []
+    try:
+        with py7zr.SevenZipFile(src, "r") as z:
+            for c in seq:
+                try:
+                    if c == "testzip":
+                        out.append("testzip=%s" % z.testzip())
+                    elif c == "test":
+                        out.append("test=%s" % z.test())
+                    elif c == "getnames":
+                        z.getnames()
+                        out.append("names")
+                    elif c == "reset":
+                        z.reset()
+                        out.append("unit")
+                    elif c == "extractall":
+                        z.extractall(factory=py7zr.io.NullIOFactory())
+                        out.append("extracted")
+                except Exception as e:  # noqa
+                    out.append("exc:" + type(e).__name__)
+    finally:
+        if mode != "path":
+            src.close()
+        os.unlink(path)
+    return out
+
+
+VERDICT_SEQS = [["testzip"], ["test", "testzip"], ["testzip", "testzip"], ["getnames", "testzip", "reset", "testzip"],
+                ["extractall", "reset", "testzip", "test", "testzip"], ["testzip", "reset", "extractall"], ["test", "test", "testzip"]]
+
+
+def damaged_verdicts(ctx, arcs, tmp):
+    """'the integrity verdicts are right at any point of a session': on archives with one damaged member (Copy
+    folders, so the damaged member is known), testzip() must name that member wherever it stands in the session,
+    by path and from a stream, and extraction must raise"""
+    jobs, meta = [], []
+    for arc in arcs:
+        if arc["kind"] not in ("multi-copy",):
+            continue
+        raw = arc["data"]
+        for mid, (name, kind, data) in enumerate(arc["files"]):
+            if kind != "file" or len(data) < 24 or raw.count(data) != 1:
+                continue
+            pos = raw.find(data)
+            d = bytearray(raw)
+            d[pos + len(data) // 2] ^= 0x41
+            for mode in ("path", "stream"):
+                for seq in VERDICT_SEQS:
+                    jobs.append((bytes(d), mode, seq, tmp))
+                    meta.append((arc["kind"], name, mode, seq))
+    res = sandbox.pmap(_verdicts, jobs, timeout=60)
+    for (kind, name, mode, seq), (st, val) in zip(meta, res):
+        conf = {"archive": kind + " with one byte of %r changed" % name, "open": mode, "calls": seq}
+        ctx.case(key=("damaged", kind, name, mode, tuple(seq)), nontrivial=len(seq) >= 2, sample=conf)
+        ctx.count("damaged-sessions", mode)
+        if st != "ok":
+            ctx.fail("C12:damaged_session_" + st, "session on a damaged archive did not complete: %s" % str(val)[:200], conf)
+            continue
+        for c, r in zip(seq, val):
+            if c == "testzip" and r != "testzip=%s" % name:
+                ctx.fail("C12:verdict_wrong", "testzip() says %s at this point of the session, the damaged member is %r" % (r, name), dict(conf, results=val))
+                break
+            if c == "extractall" and not r.startswith("exc:"):
+                ctx.fail("C12:verdict_wrong", "extractall succeeds on the damaged archive (%s)" % r, dict(conf, results=val))
+                break
+
+
 def disciplined(seq):
     dirty = False
     for c in seq:
@@ -315,6 +390,7 @@ def run(ctx):
             return ";".join(outs)
 
         ctx.correspond_model("rs.run", lines, impl, translate, classes)
+        damaged_verdicts(ctx, arcs, tmp)
     finally:
         shutil.rmtree(tmp, ignore_errors=True)
 
